@@ -9,5 +9,12 @@ claim("C01", "Lean 4 theorems about definitions regenerated from the source (py2
       "re-derived from /repo on every run and run against the real methods on boundary-directed inputs.",
       _TB + " Coupling/MAF/BNAF/Planar/Scan/Vmap round trips are tied through C08/C09/C10's models.", "DESIGN.md §5 C01")
 
-for _p in ["C02","C03","C04","C05","C06","C07","C08","C09","C10","C11","C12","C13","C14","C15","C16","C17","C18"]:
+claim("C07", "Lean 4 theorems about definitions regenerated from the source (py2lean) + Float correspondence",
+      "The generated transform/inverse of Affine/Loc/Scale/Exp/SoftPlus/Tanh/LeakyTanh/AdditiveCondition/Flip equal the documented mathematical "
+      "functions for all parameters and inputs (LeakyTanh: tanh inside, the tangent line with slope 1-tanh^2(max_val) outside, switch points included); the "
+      "constructor's softplus reparameterisation reproduces its argument; Permute (hand model, flat row-major) is inverted by argsort for every permutation of "
+      "every size and its constructor check accepts exactly the permutations.",
+      _TB + " Model/Ctors.lean and Model/Perm.lean are hand models tied by correspondence. Planar/TriangularAffine/spline documented-function theorems pending; they are exercised by the NumPy-reference oracle only.", "DESIGN.md §5 C07")
+
+for _p in ["C02","C03","C04","C05","C06","C08","C09","C10","C11","C12","C13","C14","C15","C16","C17","C18"]:
     NOT_YET[_p] = "not yet built in this round: theorems and correspondence under construction (see DESIGN.md §8); never claimed on the strength of the harness alone"
